@@ -1,7 +1,8 @@
 (* C03 - rendering a score yields exactly its sounding notes at the right times.
    Statements only; proofs in Proofs/RenderProofs.v.  Time is in integer ticks of arbitrary size
    (every rational score is such a score after multiplying by the LCM of its denominators). *)
-From ML Require Import Model.Types gen.Tables Model.Pitch Model.Rel Model.Render Spec.RenderSpec Proofs.RenderProofs.
+From ML Require Import Model.Types gen.Tables Model.Pitch Model.Rel Model.Render Spec.RenderSpec Proofs.RenderProofs Proofs.EventsProofs.
+From Coq Require Import QArith.
 Open Scope Z_scope.
 Open Scope list_scope.
 
@@ -33,6 +34,25 @@ Proof. exact track_sounding. Qed.
 (* rests, continuations with nothing to continue and absent parts produce no sound *)
 Theorem C03_silence : forall l ref, forallb silent_item l = true -> sounding ref l = Some [].
 Proof. exact sounding_silent. Qed.
+
+(* to_events: times are seconds = ticks x 60 / (tempo x ticks per quarter).  For the rows of one part (any tempo, any tick
+   resolution), the audible events that matrix_to_events accumulates for its track are exactly the sounding notes of the
+   statement, every onset and every duration - continuations included - scaled by that factor (Q: equalities of times are Qeq) *)
+Theorem C03_events_in_seconds : forall tpq tempo s idx track rows,
+  track_rows s idx track 0 None = Some rows -> Forall (fun r => r_track r = idx) rows ->
+  exists sl, sounding_of s track = Some sl /\
+    Forall2 (ev_equiv)
+      (filter (fun e => negb (e_sil e)) (match nlook idx (fold_left (ev_step true tpq tempo) rows []) with Some x => x | None => [] end))
+      (map (ev_of_snote tpq tempo idx) sl).
+Proof. exact events_are_sounding_in_seconds. Qed.
+
+(* the code as it was before the repair (a continuation's length added in quarter notes to a duration in seconds) is refuted
+   at tempo 120: a half note written s0 + l lasts 1 s in the repaired model, 1.5 s in the old one *)
+Example C03_events_unscaled_refuted :
+  let rows := [mkRow 0 0 1 66 0 false false; mkRow 0 1 1 66 0 false true] in
+  map (fun e => Qeq_bool (e_dur e) (secs 1 120 2)) (matrix_to_events true 1 120 rows) = [true] /\
+  map (fun e => Qeq_bool (e_dur e) (secs 1 120 2)) (matrix_to_events false 1 120 rows) = [false].
+Proof. exact events_unscaled_refuted. Qed.
 
 (* non-vacuity: (I % I.M)(piano = s0 + l + r + l + su1, violin absent) + (V % I.M)(piano = l + s2, violin = s4) *)
 Example C03_ex :
